@@ -217,7 +217,7 @@ func runManifest(o *Opts) {
 	sink := NewSink(o.Out, "manifest", "Corr.RunManifest",
 		"cases: manifest documents generated field-wise (0-4 remote packages incl. aliases sharing one directory and repeated packages, 0-2 registry packages with 0-3 versions each incl. sub-paths and deprecations; directory names, addresses, version strings and format numbers valid or hostile), written to a fresh directory and opened with OpenDir; then forward lookups for every stored and some unknown addresses, reverse lookups for paths inside package directories, the root, the manifest file, siblings and paths outside the root; plus raw JSON mutations of valid documents (oracle only); non-trivial = OpenDir succeeded with at least one package; distinct by document",
 		150)
-	n := 500 * o.Scale
+	n := 800 * o.Scale
 	if o.Tier == "thorough" {
 		n = 20000 * o.Scale
 	}
